@@ -71,6 +71,12 @@ type Spec struct {
 	// goroutine in src.elv.sh code is a violation ("all blocked"), sig
 	// "hang:<phase>".
 	HangViolation bool
+	// SpinViolation: a watchdog kill whose goroutine dump shows a goroutine
+	// still running (not blocked) inside src.elv.sh code is a violation
+	// "spin:<phase>@<frame>" (non-termination). Only for checks whose cases
+	// take milliseconds, so that Phase.Timeout without journal progress cannot
+	// be explained by load.
+	SpinViolation bool
 	// ChildSetup runs in every child (and in replay mode) before cases.
 	ChildSetup func(e *Env)
 	// ParentSetup runs once in the parent before any phase.
@@ -813,7 +819,14 @@ loop:
 	c := &Case{Env: e, Phase: ph.Name, I: crashI}
 	if hung {
 		blocked := allBlocked(logtxt)
-		if e.Spec.HangViolation && blocked {
+		spin := ""
+		if e.Spec.SpinViolation && !blocked {
+			spin = spinningFrame(logtxt)
+		}
+		if spin != "" {
+			c.Violation("spin:"+ph.Name+"@"+spin, "case made no progress for "+timeout.String()+" while a goroutine was running in "+spin+" (non-termination)",
+				map[string]any{"dump_tail": lastN(logtxt, 6000)})
+		} else if e.Spec.HangViolation && blocked {
 			c.Violation("hang:"+ph.Name, "evaluation hung with every goroutine blocked",
 				map[string]any{"dump_tail": lastN(logtxt, 6000)})
 		} else {
@@ -926,6 +939,25 @@ func allBlocked(dump string) bool {
 		}
 	}
 	return seen
+}
+
+// spinningFrame returns the innermost src.elv.sh frame of a goroutine that a
+// SIGQUIT dump shows as running or runnable, or "".
+func spinningFrame(dump string) string {
+	k := strings.Index(dump, "SIGQUIT")
+	if k < 0 {
+		return ""
+	}
+	for _, b := range strings.Split(dump[k:], "\n\n") {
+		m := gorHeadRe.FindStringSubmatch(b)
+		if m == nil || !strings.Contains(b, "src.elv.sh/") {
+			continue
+		}
+		if strings.HasPrefix(m[1], "running") || strings.HasPrefix(m[1], "runnable") {
+			return innermostFrame(b)
+		}
+	}
+	return ""
 }
 
 // collectRaces reads race detector logs and turns reports into violations.
